@@ -295,3 +295,22 @@ package tree
 //@   loop 0 invariant allstr(k, old(present(dict, k)) ==> present(dict, k) && dict[k] == old(dict[k]))
 //@   loop 0 invariant allstr(k, present(dict, k) && !old(present(dict, k)) ==> exists(j, i + 1, up, keys[j] == k))
 //@   loop 0 invariant unchanged(allmaps(map[string]any), dict)
+
+// ---------------------------------------------------------------------------
+// C10: an element gets an xmlns attribute exactly when its namespace differs from its parent's
+
+//@ extern utils.GetNamespaceFromGetSchema
+//@   pure
+
+// the schema that determines an entry's namespace: its own, or (on key levels) the one of its first ancestor with a schema
+//@ pred nsSchema(e) = ite(e.GetSchema() != nil, e.GetSchema(), schemaAncOf(e).GetSchema())
+
+//@ func namespaceIsEqual
+//@   props C10
+//@   requires a != nil && b != nil && schemaAncOf(a) != nil && schemaAncOf(b) != nil
+//@   modifies nothing
+//@   ensures compares_own_namespaces: result == (utils.GetNamespaceFromGetSchema(nsSchema(a)) == utils.GetNamespaceFromGetSchema(nsSchema(b)))
+//@   loop 0 invariant fresh(namespaces) && len(namespaces) == $n && $n <= 2 && len($seq) == 2 && $seq[0] == a && $seq[1] == b
+//@   loop 0 invariant $n >= 1 ==> namespaces[0] == utils.GetNamespaceFromGetSchema(nsSchema(a))
+//@   loop 0 invariant $n >= 2 ==> namespaces[1] == utils.GetNamespaceFromGetSchema(nsSchema(b))
+//@   loop 0 invariant unchanged(allelems(string))
